@@ -88,6 +88,8 @@ class Shapes:
                 ts = spec.strip()
                 if ts.startswith('opt['):
                     nullable = True
+                    if ts[4:].lstrip().startswith(('list[', 'dict[', 'set[')):
+                        ts = ts[4:-1]
                 t = parse_type(ts)
                 res = FieldSpec('%s.%s' % (c, attr), t, opts.get('kind', 'heap'), opts.get('fn'),
                                 nullable, c)
